@@ -274,8 +274,7 @@ def judge(a, v):
             uncovered["%s (%s)" % (rep["name"], rep["sect"])] += 1
             continue
         counts["not_ok"] += 1
-        obs = {"message": rep["name"], "sect": rep["sect"], "lv": rep["lv"], "dir": rep["dir"],
-               "verdict": norm_verdict(verdict), "line": rep["line"]}
+        obs = {"message": rep["name"], "sect": rep["sect"], "dir": rep["dir"], "verdict": norm_verdict(verdict)}
         rec = recs[rid]
         v.report(obs, replay=lambda rec=rec, rep=rep: {"record": rec, "report": rep,
                                                         "statement": statement_text(a, rep["line"])})
